@@ -197,6 +197,7 @@ structure St where
   expected : List String := []      -- expected `cb`/`log` lines, oldest first (cb lines without actions)
   ret : Option String := none
   inBlock : Bool := false
+  lastOp : String := ""             -- name of the operation whose snapshot comes next (for diagnostics)
 
 def St.inst (s : St) (k : Nat) : Option (Mach F) := (s.insts.getD k none)
 def St.setInst (s : St) (k : Nat) (m : Option (Mach F)) : St := { s with insts := s.insts.set k m }
@@ -365,7 +366,8 @@ def firstDiff : List String → List String → Nat → Option (Nat × String ×
   | a :: as, b :: bs, i => if a = b then firstDiff as bs (i+1) else some (i, a, b)
 
 def finishBlock (st : St) : St × Option String :=
-  let st' := { st with inBlock := false, op := [], ds := [], rng := [], expected := [], ret := none }
+  let st' := { st with inBlock := false, op := [], ds := [], rng := [], expected := [], ret := none,
+                        lastOp := (st.op.drop 1).headD "" }
   match st.op with
   | kTok :: name :: args =>
     match kTok.toNat? with
@@ -430,7 +432,7 @@ def step (st : St) (line : String) : St × Option String :=
       | some m =>
         let mine := snapText st k m
         if mine = " ".intercalate (words line) then (st, none)
-        else (st, some s!"snap expected(model)={mine.replace " " "_"}")
+        else (st, some s!"snap after={st.lastOp} expected(model)={mine.replace " " "_"}")
   | _ => (st, some "unknown line")
 
 def replayer : Replayer := { State := St, init := {}, step := step }
